@@ -256,6 +256,9 @@ func (e *Eng) copyInto(st *State, dst, src Val) {
 func (e *Eng) stmt(s ast.Stmt, st *State) []Out {
 	one := func() []Out { return []Out{{st: st, kind: Normal}} }
 	c := e.pctx(st)
+	if e.depth == 0 && e.hookDepth == 0 && e.inDefer == 0 {
+		e.curPos = s.Pos()
+	}
 	switch s := s.(type) {
 	case *ast.ExprStmt:
 		e.eval(s.X, c)
@@ -627,6 +630,10 @@ func (e *Eng) deferStmt(s *ast.DeferStmt, st *State) []Out {
 
 // runDefers executes the deferred calls of a returning path, last in first out.
 func (e *Eng) runDefers(st *State) []*State {
+	// deferred bodies run at function exit, whatever their source position
+	e.inDefer++
+	e.curPos = token.Pos(1 << 40)
+	defer func() { e.inDefer-- }()
 	states := []*State{st}
 	for i := len(st.defers) - 1; i >= 0; i-- {
 		d := st.defers[i]
@@ -726,6 +733,10 @@ type assignedSet struct {
 	all      bool
 	ghosts   map[string]bool
 	elemTags map[string]bool
+	// leaks: the statements contain an allocation of this function that may
+	// be stored into memory (so a reference read back later need not be
+	// pre-existing or one of the path's recorded allocations)
+	leaks bool
 }
 
 func (e *Eng) assignedIn(n ast.Node) *assignedSet {
@@ -807,12 +818,112 @@ func (e *Eng) assignedIn(n ast.Node) *assignedSet {
 			if !e.callIsEffectFree(n, a) {
 				a.all = true
 			}
+			if e.callAllocates(n) {
+				a.leaks = true
+			}
+		case *ast.CompositeLit:
+			if t := e.info.TypeOf(n); t != nil {
+				switch t.Underlying().(type) {
+				case *types.Slice, *types.Map:
+					a.leaks = true
+				}
+			}
+		case *ast.FuncLit:
+			if !e.litOnlyCalled(n) {
+				a.leaks = true
+			}
 		case *ast.GoStmt, *ast.SendStmt, *ast.SelectStmt:
 			a.all = true
+			a.leaks = true
 		}
 		return true
 	})
 	return a
+}
+
+// callAllocates: new, make, conversions to slices, append to a slice this
+// function does not own, and inlined callees that allocate.
+func (e *Eng) callAllocates(x *ast.CallExpr) bool {
+	if tv, ok := e.info.Types[x.Fun]; ok && tv.IsType() {
+		_, isSlice := tv.Type.Underlying().(*types.Slice)
+		return isSlice
+	}
+	if id := identOf(ast.Unparen(x.Fun)); id != nil {
+		if b, ok := e.info.Uses[id].(*types.Builtin); ok {
+			switch b.Name() {
+			case "new", "make":
+				return true
+			case "append":
+				if len(x.Args) > 0 {
+					if a0, ok := ast.Unparen(x.Args[0]).(*ast.Ident); ok {
+						if o := e.info.ObjectOf(a0); o != nil && e.owned[o] {
+							return false
+						}
+					}
+				}
+				return true
+			}
+			return false
+		}
+		if fn, ok := e.info.Uses[id].(*types.Func); ok {
+			if fi := e.u.byObj[fn.Origin()]; fi != nil && fi.Decl != nil && fi.Decl.Body != nil {
+				if (fi.Con != nil && fi.Con.Inline) || (fi.Con == nil && e.autoInline(fi)) {
+					if e.leakScan == nil {
+						e.leakScan = map[*FuncInfo]bool{}
+					}
+					if e.leakScan[fi] {
+						return true
+					}
+					e.leakScan[fi] = true
+					sub := (&Eng{u: e.u, info: fi.Pkg.TypesInfo, pkg: fi.Pkg, fi: fi, leakScan: e.leakScan}).assignedIn(fi.Decl.Body)
+					delete(e.leakScan, fi)
+					return sub.leaks
+				}
+			}
+		}
+	}
+	return false
+}
+
+// litOnlyCalled: the function literal is bound once to a local variable which
+// is never used except as the target of a call.
+func (e *Eng) litOnlyCalled(lit *ast.FuncLit) bool {
+	if e.fi == nil || e.fi.Decl == nil || e.fi.Decl.Body == nil {
+		return false
+	}
+	var v *types.Var
+	ast.Inspect(e.fi.Decl.Body, func(nd ast.Node) bool {
+		if s, ok := nd.(*ast.AssignStmt); ok && len(s.Lhs) == len(s.Rhs) {
+			for i, r := range s.Rhs {
+				if ast.Unparen(r) == ast.Expr(lit) {
+					if id, ok := s.Lhs[i].(*ast.Ident); ok {
+						v, _ = e.info.ObjectOf(id).(*types.Var)
+					}
+				}
+			}
+		}
+		return true
+	})
+	if v == nil || e.soleFuncLit(v) != lit {
+		return false
+	}
+	called := map[*ast.Ident]bool{}
+	ast.Inspect(e.fi.Decl.Body, func(nd ast.Node) bool {
+		if c, ok := nd.(*ast.CallExpr); ok {
+			if id, ok := ast.Unparen(c.Fun).(*ast.Ident); ok {
+				called[id] = true
+			}
+		}
+		return true
+	})
+	ok := true
+	ast.Inspect(e.fi.Decl.Body, func(nd ast.Node) bool {
+		if id, isID := nd.(*ast.Ident); isID && e.info.Uses[id] == types.Object(v) && !called[id] {
+			ok = false
+		}
+		return true
+	})
+	return ok
 }
 
 // callIsEffectFree reports whether a call cannot modify the Go heap (as far as
@@ -869,6 +980,38 @@ func (e *Eng) callIsEffectFree(x *ast.CallExpr, a *assignedSet) bool {
 		}
 	}
 	if fn == nil {
+		// a local closure variable with a single definition: its body's writes
+		if id, ok := fun.(*ast.Ident); ok {
+			if v, ok := e.info.Uses[id].(*types.Var); ok && !isPkgLevel(v) {
+				if lit := e.soleFuncLit(v); lit != nil && !e.litScan[lit] {
+					if e.litScan == nil {
+						e.litScan = map[*ast.FuncLit]bool{}
+					}
+					e.litScan[lit] = true
+					sub := e.assignedIn(lit.Body)
+					delete(e.litScan, lit)
+					if sub.all {
+						return false
+					}
+					for o := range sub.vars {
+						a.vars[o] = true
+					}
+					for o := range sub.rows {
+						a.rows[o] = true
+					}
+					for f, t := range sub.fields {
+						a.fields[f] = t
+					}
+					for g := range sub.ghosts {
+						a.ghosts[g] = true
+					}
+					for g := range sub.elemTags {
+						a.elemTags[g] = true
+					}
+					return true
+				}
+			}
+		}
 		// func value: hooks only
 		return false
 	}
@@ -1016,6 +1159,9 @@ func (e *Eng) havocSet(a *assignedSet, st *State) {
 	if a.all {
 		e.havocAll(st)
 	}
+	if a.leaks {
+		st.tainted = true
+	}
 	before := map[types.Object]Val{}
 	for o := range a.rows {
 		if cur, ok := st.vars[o]; ok {
@@ -1113,4 +1259,45 @@ func (e *Eng) havocSet(a *assignedSet, st *State) {
 
 func (e *Eng) havocStmt(s ast.Node, st *State) {
 	e.havocSet(e.assignedIn(s), st)
+}
+
+// soleFuncLit returns the function literal a local variable is bound to when
+// that binding is its only assignment in the function under verification.
+func (e *Eng) soleFuncLit(v *types.Var) *ast.FuncLit {
+	if e.fi == nil || e.fi.Decl == nil || e.fi.Decl.Body == nil {
+		return nil
+	}
+	var lit *ast.FuncLit
+	n := 0
+	ast.Inspect(e.fi.Decl.Body, func(nd ast.Node) bool {
+		switch s := nd.(type) {
+		case *ast.AssignStmt:
+			for i, l := range s.Lhs {
+				if id, ok := l.(*ast.Ident); ok && e.info.ObjectOf(id) == v {
+					n++
+					if len(s.Lhs) == len(s.Rhs) {
+						lit, _ = ast.Unparen(s.Rhs[i]).(*ast.FuncLit)
+					}
+				}
+			}
+		case *ast.ValueSpec:
+			for i, id := range s.Names {
+				if e.info.ObjectOf(id) == v {
+					n++
+					if i < len(s.Values) {
+						lit, _ = ast.Unparen(s.Values[i]).(*ast.FuncLit)
+					}
+				}
+			}
+		case *ast.UnaryExpr:
+			if id, ok := ast.Unparen(s.X).(*ast.Ident); ok && s.Op == token.AND && e.info.ObjectOf(id) == v {
+				n += 2
+			}
+		}
+		return true
+	})
+	if n != 1 {
+		return nil
+	}
+	return lit
 }
